@@ -3,11 +3,11 @@
 # usage: tie_try.sh [REPO-LIKE-DIR]   (prints the tie files that fail)
 src=${1:-/repo}
 w=/tmp/tie_try
-rm -rf $w && cp -r /verif/coq $w && cd $w || exit 1
+rm -rf $w && cp -a /verif/coq $w && cd $w || exit 1
 python3 /verif/tools/regen.py $src $w/Guards.v $w/regen.json >/dev/null 2>&1
 python3 /verif/tools/skel.py $src $w/GenCore.v $w/skel.json
 python3 /verif/tools/skelagg.py $src $w/GenAgg.v $w/skelagg.json
 coq_makefile -f _CoqProject -o Makefile >/dev/null
 ties=$(ls Props/Tie_*.v | sed 's/\.v$/.vo/')
 make -k -j16 $ties 2>&1 | grep -E "^File|Error|\*\*\*" | grep -v "^make" | head -40
-for t in $ties; do [ -f $t ] || echo "FAILED $t"; done
+for t in $ties; do [ $t -nt GenCore.v ] || [ $t -nt Makefile ] || echo "STALE/FAILED $t"; done
